@@ -627,6 +627,11 @@ func TestVerifC05Close(t *testing.T) {
 					s.lc = nlc
 					s.out = nil
 				}
+			case "StaleTouch":
+				// status update through a stale handle (see channel_exec_test.go): the
+				// model leaves everything unchanged; not exercised by this executor
+			case "SoftDisconnect":
+				// API-level event, never generated for this executor's profiles
 			case "SendReest":
 				var m *lnwire.ChannelReestablish
 				m, err = me.lc.channelState.ChanSyncMsg()
